@@ -4,6 +4,7 @@ package eng
 // (A) deterministic histories on a controlled listener, (B) real-socket epochs checked with porcupine.
 
 import (
+	"bytes"
 	"context"
 	"encoding/json"
 	"fmt"
@@ -101,6 +102,15 @@ func (lr *lifeRun) step(s string, cancelled *bool) {
 		}
 		return lr.open[len(lr.open)-1]
 	}
+	lastClean := func() *CtlConn {
+		for i := len(lr.open) - 1; i >= 0; i-- {
+			if !lr.open[i].dirty {
+				return lr.open[i]
+			}
+		}
+		return nil
+	}
+	_ = last
 	switch s {
 	case "connect":
 		c := lr.connect(true)
@@ -114,10 +124,34 @@ func (lr *lifeRun) step(s string, cancelled *bool) {
 		}
 		lr.open = append(lr.open, c)
 	case "call":
-		if c := last(); c != nil {
+		if c := lastClean(); c != nil {
 			if err := roundTrip(c.client, lifeBound); err != nil {
 				lr.fail("accepted-connection-not-served", "connection %d was accepted and is open, a GetInfo call on it failed: %v", c.id, err)
 			}
+		}
+	case "callp":
+		// a complete call and the start of the next frame in ONE segment; the call is answered, the connection stays
+		// open with a frame that is never completed
+		if c := lastClean(); c != nil {
+			c.dirty = true
+			c.client.SetDeadline(time.Now().Add(lifeBound))
+			_, werr := c.client.Write([]byte("{\"method\":\"org.varlink.service.GetInfo\"}\x00{\"method\":\"org.varlink.serv"))
+			buf := make([]byte, 0, 256)
+			tmp := make([]byte, 256)
+			got := false
+			for werr == nil && !got {
+				n, err := c.client.Read(tmp)
+				buf = append(buf, tmp[:n]...)
+				got = bytes.IndexByte(buf, 0) >= 0
+				if err != nil {
+					break
+				}
+			}
+			c.client.SetDeadline(time.Time{})
+			if !got {
+				lr.fail("accepted-connection-not-served", "connection %d: a GetInfo call followed in the same segment by the start of another frame was not answered (%v, got %q)", c.id, werr, clip(string(buf), 80))
+			}
+			lr.r.Count("calls_with_partial_frame_behind", 1)
 		}
 	case "close":
 		if c := last(); c != nil {
@@ -295,9 +329,13 @@ func runC14Hist(r *fw.Run, h *c14Hist) []string {
 	case "sd-in-handler":
 		// Shutdown is called by a handler while it is answering a call on an open connection
 		var c *CtlConn
-		if len(lr.open) > 0 && !cancelled {
-			c = lr.open[len(lr.open)-1]
-		} else if !cancelled {
+		for i := len(lr.open) - 1; i >= 0 && !cancelled; i-- {
+			if !lr.open[i].dirty {
+				c = lr.open[i]
+				break
+			}
+		}
+		if c == nil && !cancelled {
 			if c = lr.connect(true); c != nil {
 				lr.open = append(lr.open, c)
 			}
@@ -567,11 +605,11 @@ func c14BeforeServe(r *fw.Run, timeout, race bool) []string {
 
 // ---- history enumeration -------------------------------------------------------------------------
 
-var c14Prefix = []string{"connect", "call", "close", "abort", "fail", "cancel", "bind2", "listen2"}
+var c14Prefix = []string{"connect", "call", "callp", "close", "abort", "fail", "cancel", "bind2", "listen2"}
 var c14Finals = []string{"sd-parked", "sd-before-accept", "sd-accept-return", "sd-async", "sd-in-handler"}
 
 func c14Valid(steps []string) bool {
-	open, total, cancelled, b2, l2 := 0, 0, false, 0, 0
+	open, total, cancelled, b2, l2, cp := 0, 0, false, 0, 0, 0
 	for _, s := range steps {
 		switch s {
 		case "connect":
@@ -584,6 +622,11 @@ func c14Valid(steps []string) bool {
 			}
 		case "call":
 			if open == 0 || cancelled {
+				return false
+			}
+		case "callp":
+			cp++
+			if open == 0 || cancelled || cp > 1 {
 				return false
 			}
 		case "close", "abort", "fail":
@@ -994,7 +1037,7 @@ func replayC14(r *fw.Run, raw json.RawMessage) {
 func init() {
 	fw.Register(&fw.Engine{
 		ID: "C14", Level: "exploration",
-		Rule: "(A) histories on a controlled net.Listener installed through the white-box accessor, DoListen running on it: every valid prefix over {connect, call, close, abort mid-frame, handler fails, cancel serving context, second Bind, second Listen} up to length 4 (quick) / 7 (thorough), each ended by Shutdown at each of 4 placements - while Accept is parked, inside SetDeadline (before accept), inside Accept just before it returns a connection (between accept and handler start), from another goroutine racing a new connection - plus seeded random histories of length 4..10; connections are in-memory pipes or unix socketpairs. Oracle on event order only: every accepted connection is closed by the service exactly when its end is reached (client close, abort, handler error, context cancel) and counted out (active count 0 at the end); Close was called on the installed listener by the time Shutdown returned; a connection offered after Shutdown returned is never served; the serving call does not return while accepted connections are open, returns nil once they have ended (refuted logically when the loop is parked in Accept on a listener nobody closed), and the same object then binds, serves a call and shuts down again; second Bind/Listen during serving return an error and the first serving call still answers. (B) real unix/TCP sockets, Listen and Bind+DoListen: clients loop dial+GetInfo while a controller cycles serve -> Shutdown (with idle, mid-frame and used connections held across it) -> wait -> serve again on the same address; successful calls, binds and shutdowns are recorded with call/return stamps from one logical clock and checked with porcupine against the model 'ok only while bound'. non-trivial = history with >= 1 step before the shutdown; distinct by hash of the history. Further placements: Shutdown called by a handler while it answers a call; Shutdown before, and racing with, the start of the serving call (60 / 600 runs); every third history re-serves the object a third time through Listen.",
+		Rule: "(A) histories on a controlled net.Listener installed through the white-box accessor, DoListen running on it: every valid prefix over {connect, call, call followed in the same segment by the start of a frame that is never completed, close, abort mid-frame, handler fails, cancel serving context, second Bind, second Listen} up to length 4 (quick) / 7 (thorough), each ended by Shutdown at each of 4 placements - while Accept is parked, inside SetDeadline (before accept), inside Accept just before it returns a connection (between accept and handler start), from another goroutine racing a new connection - plus seeded random histories of length 4..10; connections are in-memory pipes or unix socketpairs. Oracle on event order only: every accepted connection is closed by the service exactly when its end is reached (client close, abort, handler error, context cancel) and counted out (active count 0 at the end); Close was called on the installed listener by the time Shutdown returned; a connection offered after Shutdown returned is never served; the serving call does not return while accepted connections are open, returns nil once they have ended (refuted logically when the loop is parked in Accept on a listener nobody closed), and the same object then binds, serves a call and shuts down again; second Bind/Listen during serving return an error and the first serving call still answers. (B) real unix/TCP sockets, Listen and Bind+DoListen: clients loop dial+GetInfo while a controller cycles serve -> Shutdown (with idle, mid-frame and used connections held across it) -> wait -> serve again on the same address; successful calls, binds and shutdowns are recorded with call/return stamps from one logical clock and checked with porcupine against the model 'ok only while bound'. non-trivial = history with >= 1 step before the shutdown; distinct by hash of the history. Further placements: Shutdown called by a handler while it answers a call; Shutdown before, and racing with, the start of the serving call (60 / 600 runs); every third history re-serves the object a third time through Listen.",
 		Assumptions: []string{"bounded progress: 10 s for a single step of the accept loop or the release of a connection, 20 s for the serving call to return", "the 8 ms drain grace and the 3 ms late-connection window are one-sided (a violation observed inside them is real; none observed proves nothing beyond them)"},
 		Run:         runC14, Replay: replayC14, CrashIsViolation: true, MinEvals: 100,
 		QuickTimeout: 15 * time.Minute, ThoroughTimeout: 60 * time.Minute,
